@@ -1,1 +1,49 @@
-int contshim_dummy;
+/* C side of contsim: the C container implementations are macro packages; this file wraps every
+   macro in a function so that the simulator (C++) can drive them.  Compiled with the same knobs as
+   the library (-DYAEP_VERIF, run-time OS_DEFAULT_SEGMENT_LENGTH / VLO_DEFAULT_LENGTH).  */
+#include <stdlib.h>
+#include <string.h>
+#include "allocate.h"
+#include "hashtab.h"
+#include "objstack.h"
+#include "vlobject.h"
+#include "contshim.h"
+
+/* hash table */
+void *cs_ht_create (YaepAllocator *a, size_t size, unsigned (*h) (hash_table_entry_t), int (*eq) (hash_table_entry_t, hash_table_entry_t))
+{ return create_hash_table (a, size, h, eq); }
+void cs_ht_empty (void *t) { empty_hash_table ((hash_table_t) t); }
+void cs_ht_delete (void *t) { delete_hash_table ((hash_table_t) t); }
+const void **cs_ht_find (void *t, const void *el, int reserve) { return (const void **) find_hash_table_entry ((hash_table_t) t, el, reserve); }
+void cs_ht_remove (void *t, const void *el) { remove_element_from_hash_table_entry ((hash_table_t) t, el); }
+size_t cs_ht_size (void *t) { return hash_table_size ((hash_table_t) t); }
+size_t cs_ht_count (void *t) { return hash_table_elements_number ((hash_table_t) t); }
+
+/* object stack: the descriptor lives in caller memory */
+size_t cs_os_sizeof (void) { return sizeof (os_t); }
+void cs_os_create (void *o, YaepAllocator *a, size_t len) { OS_CREATE (*(os_t *) o, a, len); }
+void cs_os_delete (void *o) { OS_DELETE (*(os_t *) o); }
+void cs_os_empty (void *o) { OS_EMPTY (*(os_t *) o); }
+void cs_os_nullify (void *o) { OS_TOP_NULLIFY (*(os_t *) o); }
+void cs_os_finish (void *o) { OS_TOP_FINISH (*(os_t *) o); }
+size_t cs_os_length (void *o) { return OS_TOP_LENGTH (*(os_t *) o); }
+void *cs_os_begin (void *o) { return OS_TOP_BEGIN (*(os_t *) o); }
+void cs_os_shorten (void *o, size_t n) { OS_TOP_SHORTEN (*(os_t *) o, n); }
+void cs_os_expand (void *o, size_t n) { OS_TOP_EXPAND (*(os_t *) o, n); }
+void cs_os_add_byte (void *o, int b) { OS_TOP_ADD_BYTE (*(os_t *) o, b); }
+void cs_os_add_memory (void *o, const void *p, size_t n) { OS_TOP_ADD_MEMORY (*(os_t *) o, p, n); }
+void cs_os_add_string (void *o, const char *s) { OS_TOP_ADD_STRING (*(os_t *) o, s); }
+
+/* variable length object */
+size_t cs_vlo_sizeof (void) { return sizeof (vlo_t); }
+void cs_vlo_create (void *v, YaepAllocator *a, size_t len) { VLO_CREATE (*(vlo_t *) v, a, len); }
+void cs_vlo_delete (void *v) { VLO_DELETE (*(vlo_t *) v); }
+void cs_vlo_nullify (void *v) { VLO_NULLIFY (*(vlo_t *) v); }
+void cs_vlo_tailor (void *v) { VLO_TAILOR (*(vlo_t *) v); }
+size_t cs_vlo_length (void *v) { return VLO_LENGTH (*(vlo_t *) v); }
+void *cs_vlo_begin (void *v) { return VLO_BEGIN (*(vlo_t *) v); }
+void cs_vlo_shorten (void *v, size_t n) { VLO_SHORTEN (*(vlo_t *) v, n); }
+void cs_vlo_expand (void *v, size_t n) { VLO_EXPAND (*(vlo_t *) v, n); }
+void cs_vlo_add_byte (void *v, int b) { VLO_ADD_BYTE (*(vlo_t *) v, b); }
+void cs_vlo_add_memory (void *v, const void *p, size_t n) { VLO_ADD_MEMORY (*(vlo_t *) v, p, n); }
+void cs_vlo_add_string (void *v, const char *s) { VLO_ADD_STRING (*(vlo_t *) v, s); }
